@@ -149,6 +149,12 @@ def random_doc(r):
             val = ("v" + r.choice(ODD) * r.randint(0, 3)) if v < 0.5 else (["int", r.randrange(1 << 32)] if v < 0.7 else
                                                                           (["bool", r.random() < 0.5] if v < 0.85 else ["ref", 0x7F000000 + r.randrange(100)]))
             e["attrs"].append({"ns": r.choice([None, ANDROID, nss[-1][1]]), "name": _name(r, bad and r.random() < 0.5), "value": val})
+        if bad and r.random() < 0.06:
+            # one tag with a very large number of attributes, nameless or sharing one name
+            n = r.choice([300, 1200, 2500, 6000])
+            nm = r.choice(["", "", "a", "x" + r.choice(ODD)])
+            e["attrs"] += [{"ns": r.choice([None, ANDROID]), "name": nm if r.random() < 0.9 else "n%d" % i, "value": ["int", i]}
+                           for i in range(n)]
         if depth < 3:
             for _ in range(r.choice([0, 0, 1, 2])):
                 e["children"].append(element(depth + 1) if r.random() < 0.85 else {"text": "t" + r.choice(ODD)})
